@@ -160,7 +160,9 @@ def check_generated_counts(ck, rng):
     grids.atom_grid = (12, 26)
     grids.build()
     ao = pni.eval_ao(mol, grids.coords, deriv=1)
-    P = M.psd_dm(rng, mol, nocc=1) * 2
+    # a physical (node-free) density: a random orbital of H2 may be the antibonding one, whose nodal plane makes tau / rho
+    # diverge -- the large-exponent guard then rightly refuses the point
+    P = M.core_dm(mol) * 2
     r = pni.eval_rho(mol, ao, P, xctype="MGGA", with_lapl=False)
     rho5 = np.zeros((5, r.shape[1]))
     rho5[:4] = r[:4]
